@@ -4,7 +4,9 @@ use super::core::{
     NamedObject, Operand, Rvalue, Statement, Terminator, Void,
 };
 use crate::diagnostic::Diagnostics;
-use crate::opcode::{BinaryArithOp, BinaryLogicalOp, BinaryOp, BuiltinFunctionKind, UnaryOp};
+use crate::opcode::{
+    BinaryArithOp, BinaryLogicalOp, BinaryOp, BuiltinFunctionKind, ComparisonOp, UnaryOp,
+};
 use crate::qmlast::StatementNode;
 use crate::typedexpr::{
     self, DescribeType, ExpressionError, ExpressionVisitor, RefSpace, TypeAnnotationSpace, TypeDesc,
@@ -747,8 +749,14 @@ impl<'a> CodeBuilder<'a> {
                     | &TypeKind::UINT
                     | &TypeKind::DOUBLE
                     | &TypeKind::STRING
-                    | TypeKind::Just(NamedType::Enum(_))
-                    | TypeKind::Pointer(_) => Ok(TypeKind::BOOL),
+                    | TypeKind::Just(NamedType::Enum(_)) => Ok(TypeKind::BOOL),
+                    // "<pointer> < nullptr" is ill-formed in C++, and order of pointers is
+                    // unspecified anyway
+                    TypeKind::Pointer(_)
+                        if matches!(op, ComparisonOp::Equal | ComparisonOp::NotEqual) =>
+                    {
+                        Ok(TypeKind::BOOL)
+                    }
                     _ => Err(unsupported(TypeDesc::Concrete(ty))),
                 }
             }
